@@ -14,3 +14,30 @@ Ltac chk_eq idx a0 b0 :=
   let a := eval vm_compute in a0 in
   let b := eval vm_compute in b0 in
   first [ constr_eq a b | idtac "MISMATCH" idx "MODEL" a ].
+
+(* C01's projection: outcome class, top-level error kind / exception kind only *)
+Definition errkind (e : errtype) : Z :=
+  match e with
+  | TypeErr _ => 1 | CoercionErr _ _ => 2 | ContainerErr _ => 3 | ExtraKeysErr _ => 4
+  | KeyErrs _ => 5 | MapErr _ => 6 | MissingKeyErr => 7 | IndexErrs _ => 8 | SetErrs _ => 9
+  | UnionErrs _ => 10 | PredicateErrs _ => 11 | CustomErr _ => 12
+  end%Z.
+
+Definition exnkind (e : exn) : Z :=
+  match e with
+  | ExType => 1 | ExAttribute => 2 | ExInvalidOp => 3 | ExZeroDiv => 4 | ExValue => 5 | ExOther => 6
+  end%Z.
+
+Definition oclass (o : outcome) : Z :=
+  match o with
+  | OValid _ => 0
+  | OInvalid (Invalid e _ _) => errkind e
+  | OAssert => 20
+  | ORaise e => 30 + exnkind e
+  | ONoFuel => 99
+  end%Z.
+
+Ltac chk_class idx E m fuel v x obs :=
+  let a := eval vm_compute in (oclass (run E m fuel v x)) in
+  let b := eval vm_compute in (oclass obs) in
+  first [ constr_eq a b | idtac "MISMATCH" idx "MODEL" a ].
